@@ -123,11 +123,17 @@ fn new_backend(hist: &Value, bytes: Vec<u8>, tmpdir: &str, hid: &str) -> (Any, S
 }
 
 fn open_with(inner: Any, strict: bool, maxbuf: Option<usize>) -> io::Result<cfb::CompoundFile<Any>> {
+    // the two builder calls commute: both orders are used in turn
+    static ORDER: std::sync::atomic::AtomicUsize = std::sync::atomic::AtomicUsize::new(0);
+    let first = ORDER.fetch_add(1, std::sync::atomic::Ordering::Relaxed) % 2 == 0;
     let mut o = cfb::OpenOptions::new();
+    if strict && first {
+        o = o.strict();
+    }
     if let Some(n) = maxbuf {
         o = o.max_buffer_size(n);
     }
-    if strict {
+    if strict && !first {
         o = o.strict();
     }
     o.open_with(inner)
